@@ -68,3 +68,13 @@ Example C20_h17_blocked_for_ever :
   let s := FeederPipe.run false [FeederPipe.FeederStep; FeederPipe.FeederStep; FeederPipe.KillAll; FeederPipe.CloseQueue] (FeederPipe.mkfp FeederPipe.Idle 2 false 1 2 true) in
   FeederPipe.th s = FeederPipe.Blocked /\ forall e, FeederPipe.step false s e = s.
 Proof. exact FeederPipeThm.h17_blocked_for_ever. Qed.
+
+(* the `Drop` event of the ledger (the executor object is collected) reaches the manager thread: the weak-reference callback wakes it,
+   and it WAITS for the shutdown lock to do so (Gen/Pool.v) -- a callback that gave up when the lock is momentarily held by another
+   thread would leave the manager thread, the feeder thread, the workers and their descriptors for ever (seeded change C20_i) *)
+From LokyV Require Lib.PoolLib Gen.Pool.
+Theorem C20_collected_executor_reaches_the_manager :
+  LokyV.Gen.Pool.collected_executor_wakes_the_manager_under_the_shutdown_lock = true
+  /\ LokyV.Gen.Pool.manager_thread_holds_only_a_weak_reference_to_its_executor = true.
+Proof. split; reflexivity. Qed.
+Print Assumptions C20_collected_executor_reaches_the_manager.
